@@ -149,6 +149,10 @@ class Family:
 
     # -- operations
     def do(self, op: dict) -> None:
+        # an object that left the store (a refused in-place operation) cannot be operated on any more: later steps of a
+        # fixed script that name it are skipped (the refusal itself has been recorded and is judged by TLC)
+        if any(op.get(k) is not None and op.get(k) not in self.objs for k in ("src", "partner")) and op["op"] != "new":
+            return
         self.script.append(op)
         self.marks.append((len(self.events), len(self.script)))
         getattr(self, "op_" + op["op"])(op)
@@ -899,6 +903,21 @@ def directed_scripts() -> list[dict]:
                    {"op": "update_renames", "src": 1, "ren": {"tmp_out": "d_out"}},
                    {"op": "update_scope", "src": 1, "scope": "s", "inputs": None, "outputs": ["c_out"], "exclude": None},
                    {"op": "update_renames", "src": 1, "ren": {"d_out": "c_out"}}], 0))
+    # nest-annotated: consistently annotated functions; nesting producer + consumer under ONE exposed output, read by an
+    # annotated function outside: the nested function's output keeps the inner annotation (the rewrite must succeed)
+    na = [_f("fa", ["a_in"], ["c_mid"]), _f("fb", ["c_mid"], ["d_mid"]), _f("fc", ["d_mid", "b_in"], ["e_out"])]
+    for f in na:
+        f["annot"] = "int"
+    cases.append(("nest-annotated",
+                  [_new(na), {"op": "nest", "src": 1, "S": [["c_mid"], ["d_mid"]], "N": ["d_mid"]},
+                   {"op": "copy", "src": 1},
+                   {"op": "update_renames", "src": 2, "ren": {"d_mid": "d_new"}}], 0))
+    na2 = [_f("fa", ["a_in"], ["c_mid", "c_two"]), _f("fb", ["c_mid"], ["d_mid"]), _f("fc", ["d_mid", "c_two"], ["e_out"])]
+    for f in na2:
+        f["annot"] = "int"
+    cases.append(("nest-annotated-tuple",
+                  [_new(na2), {"op": "nest", "src": 1, "S": [["c_mid", "c_two"], ["d_mid"]], "N": ["d_mid", "c_two"]},
+                   {"op": "pickle", "src": 1, "how": "pickle"}], 0))
     # overwrite-*: update_renames(..., overwrite=True) after an edge (an output and the parameter reading it), a root argument
     # or a scope was renamed: EVERY function goes back to its built spelling except for the names given now
     ow = [_f("fa", ["x_in", "y_in"], ["a_out"], dfl={"y_in": "@d_y"}), _f("fb", ["a_out", "z_in"], ["b_out"]),
